@@ -533,6 +533,11 @@ PTRef Interpret::parseTerm(const ASTNode& term, LetRecords& letRecords) {
         if (tr == PTRef_Undef) return tr;
 
         if (strcmp(name_attr.getValue(), ":named") == 0) {
+            if (not name_attr.children or name_attr.children->empty() or
+                ((**(name_attr.children->begin())).getType() != SYM_T and (**(name_attr.children->begin())).getType() != QSYM_T)) {
+                notify_formatted(true, "the value of :named must be a symbol");
+                return PTRef_Undef;
+            }
             ASTNode& sym = **(name_attr.children->begin());
             assert(sym.getType() == SYM_T or sym.getType() == QSYM_T);
             char const * str = sym.getValue();
